@@ -11,6 +11,8 @@ Parts
 """
 from __future__ import annotations
 
+import itertools
+
 import re
 import shutil
 import tempfile
@@ -190,6 +192,20 @@ def body(c, stats: Stats):
         if depends and sa == sb:
             raise Violation('notation %s: applications to %s and to %s denote different patterns but are both printed as %r'
                             % (notations.label_of(n), [str(x) for x in a], [str(x) for x in b], sa), c, 'render-same:' + n.label)
+        # the same application reached through instantiate (one argument left open as a metavariable, then filled in): the
+        # format string is positional, so the rendering must not depend on how the argument map was built
+        diff = [j for j in range(n.arity) if c['a'][j] != c['b'][j]]
+        if diff:
+            i = diff[0]
+            hole = P.MetaVar(9)
+            if all(hole != x for x in a):
+                via = n(*[hole if j == i else a[j] for j in range(n.arity)]).instantiate({9: a[i]})
+                sv = via.pretty(opts)
+                stats.classes['render-via-instantiate'] += 1
+                if sv != sa and R.from_repo(via) == ea:
+                    others = [perm for perm in itertools.permutations(range(n.arity)) if n.arity <= 4 and n(*[a[k] for k in perm]).pretty(opts) == sv]
+                    raise Violation('notation %s applied to %s is printed as %r, but the same application reached through instantiate (argument %d filled in later) is printed as %r%s'
+                                    % (notations.label_of(n), [str(x) for x in a], sa, i, sv, (' - the rendering of the arguments permuted by %s' % (others[0],)) if others else ''), c, 'render-via-instantiate:' + n.label)
         return
     if c['part'] == 'hist-steps':
         import io
